@@ -96,6 +96,16 @@ FILE_ONLY = [
 ]
 
 
+def near_default(default):
+    """values that DIFFER from the default but lie next to it (the 'different from the default' side of the value dimension, at its
+    boundary): the neighbours of an integer default, and for a fractional default values within and just outside half a percentage point"""
+    if isinstance(default, bool) or isinstance(default, str) or default is None:
+        return []
+    if isinstance(default, int):
+        return [v for v in (default - 1, default + 1) if v >= 0]
+    return [round(default + dx, 6) for dx in (0.004, -0.004, 0.0001, 0.01, -0.01) if 0.0 < default + dx < 1.0]
+
+
 def toml_lit(v):
     if isinstance(v, bool):
         return "true" if v else "false"
@@ -130,7 +140,8 @@ def run(tier, seed, replay=None):
         "the effective value of an option is read from the request/config echo of the JSON report section it belongs to (and, for the filters, from which items survive)",
         "TOML parsing (go-toml) is trusted; configuration values are written as TOML literals, flag values as command-line strings",
     ]
-    hist = {"cells_both": 0, "cells_file_only": 0, "discovery_cases": 0, "init_cases": 0, "check_cells": 0}
+    hist = {"cells_both": 0, "cells_file_only": 0, "discovery_cases": 0, "init_cases": 0, "check_cells": 0, "near_default_values": 0, "cells_near_default": 0,
+            "discovery_via_link": 0, "explicit_config_cases": 0, "check_via_link": 0}
     nontrivial = set()
     tmp = tempfile.mkdtemp(prefix="pv_c17_")
     try:
@@ -145,6 +156,8 @@ def run(tier, seed, replay=None):
             return res.finish("proof")
         # ---- options with a flag and a key: flag state x key state ---------------------------------------------------------------
         for name, flag, section, key, default, values, read in BOTH:
+            values = values + [v for v in near_default(default) if v not in values]
+            hist["near_default_values"] += len(near_default(default))
             for fv in [None] + values:                       # None = flag absent
               for cfg_name, head in ((".pyscn.toml", "[%s]"), ("pyproject.toml", "[tool.pyscn.%s]")):     # both kinds of configuration file
                 for kv in ([None] if cfg_name == ".pyscn.toml" else []) + values:                   # None = key absent
@@ -152,6 +165,8 @@ def run(tier, seed, replay=None):
                     flags = [] if fv is None else [flag, str(fv)]
                     data, err = analyze(root, "proj", cfg_text=cfg, cfg_name=cfg_name, flags=flags)
                     hist["cells_both"] += 1
+                    if fv in near_default(default) or kv in near_default(default):
+                        hist["cells_near_default"] += 1
                     want = fv if fv is not None else (kv if kv is not None else default)
                     cell = {"option": name, "flag": "absent" if fv is None else ("default" if fv == default else "other"),
                             "key": "absent" if kv is None else ("default" if kv == default else ("zero" if kv in (0, 0.0, False) else "other"))}
@@ -235,19 +250,41 @@ def run(tier, seed, replay=None):
         def mc(data):
             return data["complexity"]["Config"]["low_threshold"] if data else None
 
-        def put(d, name, val):
+        # HOW a configuration file is placed in its directory is part of "every placement": a regular file, or a symbolic link with
+        # that name (shared tooling file of a monorepo). The file is identified by the NAME it has in the directory where it is found.
+        VIAS = ("plain", "link-other-name", "link-same-name", "link-cross-name")
+        shared = os.path.join(root, "shared")       # not at or above any analysed path
+        counter = [0]
+
+        def cfg_text(name, val):
             if val is None:       # a pyproject.toml that does not configure pyscn at all: it is not a configuration file of pyscn
+                return "[project]\nname = \"x\"\n\n[tool.black]\nline-length = 100\n"
+            return ("[complexity]\nlow_threshold = %d\n" % val) if name == ".pyscn.toml" else ("[tool.pyscn.complexity]\nlow_threshold = %d\n" % val)
+
+        def put(d, name, val, via="plain"):
+            place(d, name, cfg_text(name, val), via)
+
+        def place(d, name, text, via="plain"):
+            if via == "plain":
                 with open(os.path.join(d, name), "w") as f:
-                    f.write("[project]\nname = \"x\"\n\n[tool.black]\nline-length = 100\n")
+                    f.write(text)
                 return
-            with open(os.path.join(d, name), "w") as f:
-                f.write(("[complexity]\nlow_threshold = %d\n" % val) if name == ".pyscn.toml" else ("[tool.pyscn.complexity]\nlow_threshold = %d\n" % val))
+            counter[0] += 1
+            sd = os.path.join(shared, "s%d" % counter[0])
+            os.makedirs(sd)
+            tname = {"link-other-name": "python-tooling.toml", "link-same-name": name,
+                     "link-cross-name": ".pyscn.toml" if name == "pyproject.toml" else "pyproject.toml"}[via]
+            with open(os.path.join(sd, tname), "w") as f:
+                f.write(text)
+            tgt = os.path.join(sd, tname)
+            os.symlink(os.path.relpath(tgt, d) if counter[0] % 2 else tgt, os.path.join(d, name))      # relative and absolute links
 
         def clear():
             for d in (deep, os.path.dirname(deep), os.path.dirname(os.path.dirname(deep)), root):
                 for n in (".pyscn.toml", "pyproject.toml"):
-                    if os.path.exists(os.path.join(d, n)):
+                    if os.path.lexists(os.path.join(d, n)):
                         os.remove(os.path.join(d, n))
+            shutil.rmtree(shared, ignore_errors=True)
         mid, top = os.path.dirname(deep), os.path.dirname(os.path.dirname(deep))
         scenarios = [
             ("pyscn.toml next to the code", [(deep, ".pyscn.toml", 2)], 2),
@@ -264,22 +301,35 @@ def run(tier, seed, replay=None):
             ("only a pyproject.toml without [tool.pyscn]", [(deep, "pyproject.toml", None)], 9),
             ("no file at all", [], 9),
         ]
-        for title, files, want in scenarios:
-            for cwd, target in ((root, "top/mid/proj2"), (deep, "."), (mid, "proj2"), (tmp, os.path.join("w", "top", "mid", "proj2")), (proj, os.path.relpath(deep, proj))):
+        spellings = ((root, "top/mid/proj2"), (deep, "."), (mid, "proj2"), (tmp, os.path.join("w", "top", "mid", "proj2")), (proj, os.path.relpath(deep, proj)))
+        for si, (title, files, want) in enumerate(scenarios):
+          for vi, via in enumerate(VIAS):
+            if via != "plain" and not files:
+                continue
+            # regular files: every (cwd, spelling); links: two of the five per layout, rotating so that all five occur for every kind of link
+            for cwd, target in (spellings if via == "plain" else [spellings[(si + vi) % 5], spellings[(si + vi + 2) % 5]]):
                 clear()
                 for d, n, v in files:
-                    put(d, n, v)
+                    put(d, n, v, via)
                 rc, data, err = C.pyscn_json([target], cwd)
                 hist["discovery_cases"] += 1
+                if via != "plain":
+                    hist["discovery_via_link"] += 1
+                    nontrivial.add(("discovery", title, via))
                 got = mc(data)
                 if got != want:
                     sig = {"kind": "discovery", "scenario": title, "cwd_is_target_or_above": os.path.commonpath([cwd, deep]) == cwd}
+                    if via != "plain":
+                        sig["via"] = via
                     k = C.classify(PID, sig)
-                    what = "C17 discovery (%s): analysing %s from %s uses low_threshold %r, expected %r from the nearest file at or above the analysed path" % (title, target, os.path.relpath(cwd, tmp), got, want)
+                    what = "C17 discovery (%s%s): analysing %s from %s uses low_threshold %r, expected %r from the nearest file at or above the analysed path" % (
+                        title, "" if via == "plain" else "; each configuration file is a symbolic link [%s] to a file elsewhere" % via, target, os.path.relpath(cwd, tmp), got, want)
                     if k:
                         res.known_finding(k, "(%s)" % what)
                     else:
-                        res.violation(what, {"signature": sig, "files": [(os.path.relpath(d, root), n, v) for d, n, v in files], "cwd": os.path.relpath(cwd, tmp), "target": target})
+                        res.violation(what, {"signature": sig, "files": [(os.path.relpath(d, root), n, v) for d, n, v in files], "via": via, "cwd": os.path.relpath(cwd, tmp), "target": target,
+                                             "layout": sorted((os.path.relpath(os.path.join(dp, fn), root), os.readlink(os.path.join(dp, fn)) if os.path.islink(os.path.join(dp, fn)) else None)
+                                                              for dp, _, fns in os.walk(root) for fn in fns if fn.endswith(".toml"))})
         # explicit --config always wins
         clear()
         put(deep, ".pyscn.toml", 2)
@@ -293,6 +343,50 @@ def run(tier, seed, replay=None):
         rc, data, err = C.pyscn_json(["top/mid/proj2"], root, extra=["--config", other, "--min-complexity", "3"])
         if data is None or data["complexity"]["Config"]["min_complexity"] != 3 or mc(data) != 8:
             res.violation("C17: --config other.toml (low_threshold 8) and --min-complexity 3: effective %r / %r" % (mc(data), data and data["complexity"]["Config"]["min_complexity"]), {"signature": {"kind": "explicit-config-flag"}})
+        # ... also when the file named by --config (or found in the directory named by --config) is a symbolic link
+        cfgs = os.path.join(root, "cfgs")
+        for ci, (lname, via, as_dir) in enumerate([(n, v, a) for n in ("pyproject.toml", ".pyscn.toml", "team.toml") for v in VIAS for a in ((False, True) if n != "team.toml" else (False,))]):
+            clear()
+            shutil.rmtree(cfgs, ignore_errors=True)
+            os.makedirs(cfgs)
+            put(deep, ".pyscn.toml", 2)
+            place(cfgs, lname, cfg_text("pyproject.toml" if lname == "pyproject.toml" else ".pyscn.toml", 8), via)
+            arg = cfgs if as_dir else os.path.join(cfgs, lname)
+            if ci % 2:
+                arg = os.path.relpath(arg, root)
+            rc, data, err = C.pyscn_json(["top/mid/proj2"], root, extra=["--config", arg])
+            hist["explicit_config_cases"] += 1
+            nontrivial.add(("explicit", lname, via, as_dir))
+            if mc(data) != 8:
+                sig = {"kind": "explicit-config", "name": lname, "via": via, "as_directory": as_dir}
+                k = C.classify(PID, sig)
+                what = "C17: --config %s (%s%s, sets low_threshold = 8) next to a discovered .pyscn.toml (2): effective %r, expected 8 (an explicit --config always wins)%s" % (
+                    arg, lname, "" if via == "plain" else ", a symbolic link [%s] -> %s" % (via, os.readlink(os.path.join(cfgs, lname))), mc(data), "" if data else "; " + err[-200:])
+                if k:
+                    res.known_finding(k, "(%s)" % what)
+                else:
+                    res.violation(what, {"signature": sig, "config_arg": arg, "config_text": cfg_text("pyproject.toml" if lname == "pyproject.toml" else ".pyscn.toml", 8)})
+        shutil.rmtree(cfgs, ignore_errors=True)
+        clear()
+        # ---- `check` reads the same file: the gate of a linked configuration file is effective, and the flag still wins over it ----------------
+        for name, head in ((".pyscn.toml", "[complexity]"), ("pyproject.toml", "[tool.pyscn.complexity]")):
+            for via in VIAS[1:]:
+                for fv in (None, M):
+                    clear()
+                    place(deep, name, "%s\nmax_complexity = %d\n" % (head, M - 1), via)
+                    a2 = ["check", "--select", "complexity"] + ([] if fv is None else ["--max-complexity", str(fv)]) + ["top/mid/proj2"]
+                    rc, out, err = C.pyscn(a2, cwd=root)
+                    hist["check_via_link"] += 1
+                    want = 1 if fv is None else 0
+                    if rc != want:
+                        sig = {"kind": "check-precedence", "flag": "absent" if fv is None else "other", "key": "other", "via": via, "file": name}
+                        k = C.classify(PID, sig)
+                        what = "C17 check: max complexity in the code %d, --max-complexity %s, %s max_complexity = %d in a %s that is a symbolic link [%s]: exit %d, expected %d" % (
+                            M, fv, head, M - 1, name, via, rc, want)
+                        if k:
+                            res.known_finding(k, "(%s)" % what)
+                        else:
+                            res.violation(what, {"signature": sig, "args": a2, "output": (out + err)[-400:]})
         clear()
         # ---- pyscn init gives the default behaviour ----------------------------------------------------------------------------------
         initd = os.path.join(root, "initproj")
@@ -377,16 +471,19 @@ def run(tier, seed, replay=None):
     if not ps.ok and not any(fi for _, _, fi in res.violations):
         res.violation("proof obligation or tie broken: " + "; ".join(ps.broken)[:1500], {"broken": ps.broken}, found_input=False)
     res.coverage.update({
-        "evaluations": hist["cells_both"] + hist["cells_file_only"] + hist["discovery_cases"] + hist["init_cases"] + hist["check_cells"],
+        "evaluations": hist["cells_both"] + hist["cells_file_only"] + hist["discovery_cases"] + hist["init_cases"] + hist["check_cells"] + hist["explicit_config_cases"] + hist["check_via_link"],
         "distinct_nontrivial": len(nontrivial),
-        "rule": "full matrix on the real binary: every option with a flag and a key (4) x flag {absent, each value incl. the default} x key {absent, each value incl. default and 0}; "
+        "rule": "full matrix on the real binary: every option with a flag and a key (4) x flag {absent, each value incl. the default and the values NEXT TO the default (integer neighbours; +-0.0001/0.004/0.01 for fractions)} x key {absent, each value incl. default, near-default and 0}; "
                 "%d configuration-only keys x values incl. 0/false; 10 discovery layouts (.pyscn.toml / pyproject.toml at 0-2 levels above the code, both kinds, nearest) x 5 "
-                "(cwd, spelling) combinations; --config; pyscn init vs no file (whole report compared)" % len(FILE_ONLY),
+                "(cwd, spelling) combinations, each layout also with every configuration file placed as a SYMBOLIC LINK (to a file of another name / the same name / the other kind's name; relative and absolute) x 2 rotating spellings; "
+                "--config <file|directory> x {pyproject.toml, .pyscn.toml, custom name} x {regular file, 3 kinds of link}; check gate through a linked file x flag; pyscn init vs no file (whole report compared)" % len(FILE_ONLY),
         "exhaustive": True,
         "exhaustive_note": "the matrices are run completely on every run",
         "samples": [{"option": "min_complexity", "flag": "--min-complexity 6", "config": "[complexity] min_complexity = 1", "expected_effective": 6},
-                    {"key": "[dead_code] context_lines = 0", "expected_effective": 0}, {"discovery": "nearest of two .pyscn.toml (mid vs top)", "expected": "mid"}],
-        "traces_validated_against_impl": hist["cells_both"] + hist["cells_file_only"] + hist["discovery_cases"],
+                    {"key": "[dead_code] context_lines = 0", "expected_effective": 0}, {"discovery": "nearest of two .pyscn.toml (mid vs top)", "expected": "mid"},
+                    {"option": "similarity_threshold", "flag": "--clone-threshold 0.654", "config": "[clones] similarity_threshold = 0.9", "expected_effective": 0.654},
+                    {"discovery": "pyproject.toml next to the code, a symbolic link to ../shared/s1/python-tooling.toml", "expected": "its [tool.pyscn.complexity] low_threshold"}],
+        "traces_validated_against_impl": hist["cells_both"] + hist["cells_file_only"] + hist["discovery_cases"] + hist["explicit_config_cases"] + hist["check_via_link"],
         "distribution": hist,
     })
     return res.finish("proof")
